@@ -6,12 +6,13 @@
     discopy/cat.py        rsubs (47-49), Arrow.free_symbols (362-372), Box.subs/lambdify (548-562)
     discopy/monoidal.py   Diagram.subs/lambdify (476-484): layer by layer
     discopy/tensor.py     Box.array (577-579), Functor.__call__ on boxes/daggers (355-360),
-                          Diagram.grad (485-492), Diagram.jacobian (494-522), Box.grad (582-585)
+                          Diagram.grad (485-492), Diagram.jacobian (494-522), Box.grad (582-585),
+                          Spider (631-643), Bubble (654-735)
     discopy/quantum/gates.py  Parametrized.subs (331-333), ClassicalGate.subs (96-98),
                           Scalar/MixedScalar/Sqrt/Rotation constructors
     discopy/quantum/zx.py Spider.subs (285-287), Scalar.subs (350-352)
 
-  Three parts:
+  Parts (2b: bubbles and Bubble.grad, tensor.py:654-735, described where it starts):
    1. `Poly`  — Int-coefficient multivariate polynomials in normal form (the executable scalar
                 type of the driver; sympy's polynomial arithmetic is what it stands for);
    2. `PDiagram R` — tensor diagrams with box data in any scalar type `R` (core classes only),
@@ -271,6 +272,138 @@ def PolyDiagram.grad (checksFS : Bool) (v : Nat) (d : PolyDiagram) : List (List 
 /-- Row-major entries of an `r × c` matrix. -/
 def Mat.toList {R} (m : Mat R) (r c : Nat) : List R :=
   (List.range r).flatMap (fun i => (List.range c).map (fun j => m i j))
+
+/-! ## 2b. Bubbles (tensor.py:654-747) and their gradient by the chain rule
+
+  Single-wire bubbles applying a polynomial function with integer coefficients entrywise:
+    * evaluation        tensor.py:335-336   `self(diagram.inside).map(diagram.func)`
+    * free symbols      tensor.py:699-701   those of the diagram inside
+    * gradient          tensor.py:713-735   (as repaired by the fix commits: spiders on `Dim` types,
+                                             empty sum for constants)
+        Spider(1, 2, dom) >> inside.bubble(func') @ inside.grad(var) >> Spider(2, 1, cod)
+      with `func' = x ↦ func(tmp).diff(tmp).subs(tmp, x)`; `bubble' @ Sum` and `>>` distribute
+      over the terms of `inside.grad(var)`, so there is one term per term of that sum.
+  Bubbles are not nested (the inside is a diagram of plain boxes). -/
+
+/-- Value at `x` of the polynomial with integer coefficients `cs` (constant term first), in Horner
+    form; `ι` embeds the integers in the scalars. -/
+def polyApply {R} [Add R] [Mul R] [Zero R] (ι : Int → R) : List Int → R → R
+  | [], _ => 0
+  | c :: cs, x => ι c + x * polyApply ι cs x
+
+def polyDerivAux : Nat → List Int → List Int
+  | _, [] => []
+  | k, c :: cs => ((k : Int) * c) :: polyDerivAux (k + 1) cs
+
+/-- Coefficients of the derivative: `[c0, c1, c2, …] ↦ [c1, 2·c2, 3·c3, …]` (sympy's `diff` of
+    `func(tmp)` followed by `subs(tmp, x)` is `polyApply (polyDeriv cs) x`). -/
+def polyDeriv : List Int → List Int
+  | [] => []
+  | _ :: cs => polyDerivAux 1 cs
+
+/-- `Spider(1, 2, Dim(n))` (tensor.py:631-643: ones at the index tuples `(i, i, i)`): row `i`,
+    column `(i, i)` = `i * n + i`. -/
+def spiderSplit {R} [Zero R] [One R] (n : Nat) : Mat R := fun i k => if k = i * n + i then 1 else 0
+
+/-- `Spider(2, 1, Dim(n))`: row `(j, j)`, column `j`. -/
+def spiderMerge {R} [Zero R] [One R] (n : Nat) : Mat R := fun k j => if k = j * n + j then 1 else 0
+
+/-- Kronecker product with a `p × q` matrix on the right (`@` of two tensors, row-major). -/
+def kronM {R} [Mul R] (p q : Nat) (a b : Mat R) : Mat R :=
+  fun i j => a (i / p) (j / q) * b (i % p) (j % q)
+
+/-- `Spider(1, 2, a) >> A @ B >> Spider(2, 1, b)` for `A, B : a → b`. -/
+def spiderSandwich {R} [Add R] [Mul R] [Zero R] [One R] (a b : Nat) (A B : Mat R) : Mat R :=
+  matMul (a * a) (spiderSplit a) (matMul (b * b) (kronM a b A B) (spiderMerge b))
+
+/-- Boxes of a diagram that may contain bubbles.
+    * `bubble dom cod func inside` — `inside.bubble(func=…)` with `dom = inside.dom`,
+      `cod = inside.cod`, both of length ≤ 1;
+    * `chain dom cod func' inside term` — one term of `Bubble.grad`:
+      `Spider(1, 2, dom) >> inside.bubble(func') @ term >> Spider(2, 1, cod)`, kept as one box on
+      the wires of the bubble (it is whiskered like a box by `Diagram.grad`). -/
+inductive XBox (R : Type) where
+  | plain (b : PBox R)
+  | bubble (dom cod : List Nat) (func : List Int) (inside : List (PLayer R))
+  | chain (dom cod : List Nat) (func : List Int) (inside term : List (PLayer R))
+
+def XBox.dom {R} : XBox R → List Nat
+  | .plain b => b.dom
+  | .bubble dom _ _ _ => dom
+  | .chain dom _ _ _ _ => dom
+
+def XBox.cod {R} : XBox R → List Nat
+  | .plain b => b.cod
+  | .bubble _ cod _ _ => cod
+  | .chain _ cod _ _ _ => cod
+
+/-- Array of a bubble: the function applied to every entry of the evaluation of the inside
+    (entries outside the `dom × cod` block do not exist: 0). -/
+def bubbleArr {R} [Add R] [Mul R] [Zero R] [One R] [HasConj R] (ι : Int → R) (a b : Nat)
+    (func : List Int) (inside : List (PLayer R)) : Mat R :=
+  fun i j => if i < a ∧ j < b then polyApply ι func (evalLayers inside i j) else 0
+
+def XBox.arr {R} [Add R] [Mul R] [Zero R] [One R] [HasConj R] (ι : Int → R) : XBox R → Mat R
+  | .plain b => b.arr
+  | .bubble dom cod func inside => bubbleArr ι (prod dom) (prod cod) func inside
+  | .chain dom cod func inside term =>
+    spiderSandwich (prod dom) (prod cod) (bubbleArr ι (prod dom) (prod cod) func inside)
+      (evalLayers term)
+
+structure XLayer (R : Type) where
+  left : List Nat
+  box : XBox R
+  right : List Nat
+
+def XLayer.outDim {R} (l : XLayer R) : Nat := prod l.left * prod l.box.cod * prod l.right
+
+/-- As `PLayer.mat`, with the array of an `XBox`. -/
+def XLayer.mat {R} [Add R] [Mul R] [Zero R] [One R] [HasConj R] (ι : Int → R) (l : XLayer R)
+    (i j : Nat) : R :=
+  if i / (prod l.box.dom * prod l.right) = j / (prod l.box.cod * prod l.right)
+      ∧ i % prod l.right = j % prod l.right
+  then l.box.arr ι (i / prod l.right % prod l.box.dom) (j / prod l.right % prod l.box.cod)
+  else 0
+
+def xevalLayers {R} [Add R] [Mul R] [Zero R] [One R] [HasConj R] (ι : Int → R) :
+    List (XLayer R) → Mat R
+  | [] => idMat
+  | l :: ls => matMul l.outDim (l.mat ι) (xevalLayers ι ls)
+
+def xevalSum {R} [Add R] [Mul R] [Zero R] [One R] [HasConj R] (ι : Int → R)
+    (ts : List (List (XLayer R))) : Mat R :=
+  fun i j => (ts.map (fun t => xevalLayers ι t i j)).sum
+
+/-- "var in box.free_symbols" for each kind of box (a bubble reports those of its inside). -/
+def XBox.dep {R} (depP : PBox R → Bool) : XBox R → Bool
+  | .plain b => depP b
+  | .bubble _ _ _ inside => inside.any (fun l => depP l.box)
+  | .chain _ _ _ inside term => inside.any (fun l => depP l.box) || term.any (fun l => depP l.box)
+
+/-- `box.grad(var)` for each kind of box: tensor.Box.grad (`boxGrad`) and Bubble.grad (the chain
+    rule above; its own free-symbol test is always there in the repaired code).  Terms of a
+    gradient are not differentiated again. -/
+def xboxGrad {R} (checksFS : Bool) (depP : PBox R → Bool) (D : R → R) : XBox R → List (XBox R)
+  | .plain b => (boxGrad checksFS depP D b).map .plain
+  | .bubble dom cod func inside =>
+    if inside.any (fun l => depP l.box) then
+      (gradLayers depP (boxGrad checksFS depP D) inside).map
+        (fun t => .chain dom cod (polyDeriv func) inside t)
+    else []
+  | .chain _ _ _ _ _ => []
+
+/-- tensor.Diagram.grad (485-492) on diagrams that may contain bubbles. -/
+def xgradLayers {R} (dep : XBox R → Bool) (G : XBox R → List (XBox R)) :
+    List (XLayer R) → List (List (XLayer R))
+  | [] => []
+  | l :: tail =>
+    if (l :: tail).any (fun x => dep x.box) then
+      (G l.box).map (fun b' => { left := l.left, box := b', right := l.right } :: tail)
+        ++ (xgradLayers dep G tail).map (fun t => l :: t)
+    else []
+
+def polyXGrad (checksFS : Bool) (v : Nat) (ls : List (XLayer Poly)) : List (List (XLayer Poly)) :=
+  xgradLayers (XBox.dep (polyDep v)) (xboxGrad checksFS (polyDep v) (Poly.deriv v)) ls
 
 /-! ## 3. What each box class's `subs` rebuilds -/
 
